@@ -196,6 +196,34 @@ def _str_hook(interp, args, kwargs):
     raise Undecided("str(%r)" % (value,))
 
 
+# Workbook options (second argument of xlsxwriter.Workbook) by what they do to a table of texts stored with write_string:
+# constant_memory flushes each row when the next one starts and drops blank cells without a format - the empty items at
+# the end of a row and empty rows at the end of the table are not in the file any more.
+WORKBOOK_OPTIONS_THAT_LOSE_CELLS = {"constant_memory"}
+WORKBOOK_OPTIONS_WITHOUT_EFFECT_ON_TEXTS = {"in_memory", "tmpdir", "strings_to_numbers", "strings_to_formulas", "strings_to_urls",
+                                            "nan_inf_to_errors", "default_date_format", "remove_timezone", "use_zip64", "date_1904",
+                                            "max_url_length", "use_future_functions"}
+
+
+def _workbook_external(workbook, options_seen):
+    def make(interp_, args, kwargs):
+        options = args[1] if len(args) > 1 else kwargs.get("options")
+        if options is not None:
+            if not isinstance(options, dict) or not all(isinstance(name, str) for name in options):
+                raise Undecided("xlsxwriter.Workbook(..., %r)" % (options,))
+            for name, value in options.items():
+                if name in WORKBOOK_OPTIONS_THAT_LOSE_CELLS:
+                    if not isinstance(value, (bool, int)):
+                        raise Undecided("Workbook option %s=%r" % (name, value))
+                    if value:
+                        options_seen.append(name)
+                elif name not in WORKBOOK_OPTIONS_WITHOUT_EFFECT_ON_TEXTS:
+                    raise Undecided("Workbook option %r is in neither table of c16.py" % (name,))
+        return workbook
+
+    return make
+
+
 def rule_xlsx_writer(ctx):
     model = ctx.model
     ctx.res.minimum("O16.5", 1)
@@ -220,7 +248,9 @@ def rule_xlsx_writer(ctx):
         worksheet = Obj("xlsxwriter.Worksheet", {"write_string": write_string, "write": write, "xls_strmax": 32767, "xls_colmax": 16384,
                                                   "xls_rowmax": 1048576})
         workbook = Obj("xlsxwriter.Workbook", {"add_worksheet": stub(lambda i, a, k: worksheet), "close": stub(lambda i, a, k: log.append(("close",)))})
-        interp = Interp(model, ch, externals={"xlsxwriter.Workbook": lambda i, a, k: workbook, "os.path.basename": lambda i, a, k: "x"})
+        lossy_options = []
+        interp = Interp(model, ch, externals={"xlsxwriter.Workbook": _workbook_external(workbook, lossy_options),
+                                              "os.path.basename": lambda i, a, k: "x"})
         from ..absint import ClassRef
 
         writer = interp.instantiate(ClassRef(model.cls("cutplace.rowio.XlsxRowWriter")), ["target.xlsx"], {})
@@ -235,6 +265,9 @@ def rule_xlsx_writer(ctx):
         except AbsRaise as raised:
             outcome = "raise " + exc_name(raised.value)
         interp.call_function(model.func("cutplace.rowio.XlsxRowWriter.close"), [writer], {}, None)
+        if lossy_options:
+            return (key, "the workbook is created with %s: blank cells at the end of rows and of the table are not stored"
+                    % ", ".join(lossy_options), "every item keeps its cell")
         if return_code != 0:
             # an item the sheet cannot hold must not be dropped or cut silently: "reads back identically"
             return (key, outcome, "raise DataFormatError")
@@ -280,7 +313,7 @@ def rule_xlsx_writer_rejected_rows(ctx):
         worksheet = Obj("xlsxwriter.Worksheet", {"write_string": write_string, "write": write_string, "xls_strmax": 32767, "xls_colmax": 16384,
                                                   "xls_rowmax": 1048576})
         workbook = Obj("xlsxwriter.Workbook", {"add_worksheet": stub(lambda i, a, k: worksheet), "close": stub(lambda i, a, k: None)})
-        interp = Interp(model, ch, externals={"xlsxwriter.Workbook": lambda i, a, k: workbook, "os.path.basename": lambda i, a, k: "x"})
+        interp = Interp(model, ch, externals={"xlsxwriter.Workbook": _workbook_external(workbook, []), "os.path.basename": lambda i, a, k: "x"})
         writer = interp.instantiate(ClassRef(model.cls("cutplace.rowio.XlsxRowWriter")), ["target.xlsx"], {})
         write_row = interp.getattr(writer, "write_row")
         good_rows = [["1", "2", "3"]] * entry
